@@ -96,30 +96,57 @@ def run(ctx):
     ctx.check("C12.R1", "json_reader: reader schema parsed into the instance's reader-side table", ok, jr.where(), "json_reader: reader schema parse", "the JSON reader's reader schema must be parsed like the binary reader's")
 
     # ---- R2 early return copies the table --------------------------------------------------------
-    ctx.rule("C12.R2", "parse_schema: `return schema` (unmodified argument) is dominated by the copy of schema['__named_schemas'] into the caller's dictionary; marker-only schemas are re-parsed", floor=2)
+    ctx.rule("C12.R2", "parse_schema decision table over {dict, parsed marker, embedded table, _force/expand}: a marked schema is returned as is only after its embedded table was copied into the caller's dictionary; a marker without table is re-parsed", floor=3)
     cfg = cfg_of(ps)
     sparam = ps.pos_params[0]
-    rets = [n for n in walk_local(ps.node) if isinstance(n, ast.Return) and norm(n.value) == sparam]
-    if not rets:
-        ctx.unrecognised("C12.R2", "parse_schema", ps.where(), "no `return schema` of the unmodified argument")
-    copies = []
-    for n in walk_local(ps.node):
-        if isinstance(n, ast.For) and "__named_schemas" in norm(n.iter) and any(isinstance(s, ast.Assign) and norm(s.targets[0]).startswith("named_schemas[") for s in n.body):
-            copies.append(cfg.node_of(n.iter))
-        if isinstance(n, ast.Call) and norm(n.func) == "named_schemas.update" and "__named_schemas" in norm(n):
-            copies.append(cfg.node_of(n))
-    has_table_tests = [t for t in cfg.nodes if t.kind == "test" and norm(t.ast) in (f"'__named_schemas' in {sparam}",)]
-    for r in rets:
-        rn = cfg.node_of(r)
-        corr = cfg.correlated_skip_edges(rn)
-        ok = bool(copies) and cfg.must_pass(cfg.entry, rn, copies, skip_edges=corr)
-        ctx.check("C12.R2", "every path to `return schema` copies the embedded name table into the caller's dictionary", ok, ps.where(r), "parse_schema: return schema without copying __named_schemas", "an already parsed schema is returned as is while the caller's named_schemas stays empty: by-name references fail later (KeyError) although the raw and the freshly parsed schema work")
-        ok2 = bool(has_table_tests) and any(cfg.edge_dominates(t, "true", c) for t in has_table_tests for c in copies) and cfg.must_pass(cfg.entry, rn, has_table_tests, skip_edges=corr)
-        ctx.check("C12.R2", "a schema carrying only the parsed marker (no embedded table) is not returned as is", ok2, ps.where(r), "parse_schema: marker-only schema returned unparsed", "schemas marked by older releases (marker, no table) must be re-parsed; returning them as is leaves the name table empty")
-    legacy = [n for n in walk_local(ps.node) if isinstance(n, ast.Return) and isinstance(n.value, ast.Call) and norm(n.value.func) == "_parse_schema"]
-    ok = any(any(norm(t.ast) == f"'__named_schemas' in {sparam}" and lab == "false" for (t, lab) in cfg.guards_of(cfg.node_of(n))) for n in legacy)
-    ctx.check("C12.R2", "the marker-only arm re-parses", ok, ps.where(), "parse_schema: legacy arm", "no re-parse on the arm where the embedded table is missing")
+    from sa import guards as _g
 
+    def outcome(is_dict, marker, table, forced):
+        atoms = {
+            f"isinstance({sparam}, dict)": is_dict,
+            f"isinstance({sparam}, list)": False,
+            f"'__fastavro_parsed' in {sparam}": marker,
+            f"'__named_schemas' in {sparam}": table,
+            "_force": forced,
+            "expand": False,
+            "named_schemas is None": False,
+        }
+        eff = []
+        r = _g.run_chain(ps.node.body, {}, atoms, effects=eff)
+        return r, eff
+
+    def copies_table(eff):
+        for st in eff:
+            txt = norm(st)
+            # the whole table: a loop over the table itself that stores every entry, or update(<table>)
+            if isinstance(st, ast.For) and "__named_schemas" in norm(st.iter) and any(isinstance(x, ast.Assign) and norm(x.targets[0]).startswith("named_schemas[") for x in st.body):
+                return True
+            if isinstance(st, ast.Expr) and isinstance(st.value, ast.Call) and norm(st.value.func) == "named_schemas.update" and st.value.args and "__named_schemas" in norm(st.value.args[0]) and not isinstance(st.value.args[0], (ast.DictComp, ast.GeneratorExp)):
+                return True
+        return False
+
+    cases = {
+        "parsed schema with its table": (True, True, True, False),
+        "parsed marker without table": (True, True, False, False),
+        "parsed schema with its table, _force": (True, True, True, True),
+        "raw dict schema": (True, False, False, False),
+    }
+    for label, args in cases.items():
+        r, eff = outcome(*args)
+        if r[0] != "return" or r[1] is None:
+            ctx.unrecognised("C12.R2", f"parse_schema: {label}", ps.where(), f"decision not evaluable ({r[0]}: {norm(r[1])[:60] if len(r) > 1 and r[1] is not None else ''})")
+            continue
+        txt = norm(r[1])
+        reparsed = txt.startswith("_parse_schema(") and txt.split("(", 1)[1].startswith(sparam)
+        if label == "parsed schema with its table":
+            ok = txt == sparam and copies_table(eff)
+            ctx.check("C12.R2", "a parsed schema is returned as is, after its embedded name table was copied into the caller's dictionary", ok, ps.where(), f"parse_schema: returns `{txt[:50]}`, table copied: {copies_table(eff)}", "an already parsed schema is returned while the caller's named_schemas stays empty: by-name references fail later (KeyError) although the raw and the freshly parsed schema work")
+        elif label == "parsed marker without table":
+            ctx.check("C12.R2", "a schema carrying only the parsed marker (no embedded table) is re-parsed, not returned as is", reparsed, ps.where(), f"parse_schema: marker-only schema -> `{txt[:50]}`", "schemas marked by older releases (marker, no table) must be re-parsed; returning them as is leaves the name table empty")
+        elif label == "parsed schema with its table, _force":
+            ctx.check("C12.R2", "_force re-parses a parsed schema (with its table copied first)", reparsed and copies_table(eff), ps.where(), f"parse_schema: forced -> `{txt[:50]}`, table copied: {copies_table(eff)}", "a forced re-parse of a schema that refers to separately parsed types needs their definitions in the caller's dictionary")
+        else:
+            ctx.check("C12.R2", "a raw schema is parsed", reparsed, ps.where(), f"parse_schema: raw dict -> `{txt[:50]}`", "a raw schema is not parsed")
     # the members of a top-level union are schemas of their own: each goes through the hint-aware entry
     from sa.pathsum import summaries as _summ
 
